@@ -160,7 +160,7 @@ def correspond(cfg, lines, log, harness_args=(), selfcheck=False):
         return {"cfg": cfg, "n": 0, "ok": 0, "skipped": 0, "fails": [], "crash": crash}
     k = min(len(outs), len(lines) + 1)
     if selfcheck:
-        verdicts = ["ok"] + [("ok" if o.startswith("EQ") else ("skip unsupported" if o.startswith("UNSUPPORTED") else "FAIL C function and C++ operation disagree: " + o)) for o in outs[1:k]]
+        verdicts = ["ok"] + [("ok" if o.startswith("EQ") else ("FAIL the harness does not know this C-interface operation (generator/harness mismatch): " + o if o.startswith("UNSUPPORTED") else "FAIL C function and C++ operation disagree: " + o)) for o in outs[1:k]]
     else:
         verdicts = run_judge(lines[:k - 1], outs[:k]) if k >= 1 else []
     fails = []; ok = 0; skipped = 0
